@@ -83,18 +83,51 @@ def _pair(r):
         f1, f2 = f2, f1
     z1 = r.choice(gen_dt.DST_ZONES + gen_dt.PLAIN_ZONES + gen_dt.MIDNIGHT_ZONES)
     z2 = z1 if kind == "zone" else r.choice(gen_dt.DST_ZONES + gen_dt.PLAIN_ZONES)
-    a = {"$": "dt", "f": f1, "tz": z1}
+    if kind == "zone" and r.random() < 0.25:
+        # start on (either occurrence of) a repeated wall time of the zone, end shortly after or later
+        trans = [t for t in tzdb.transitions(z1) if t[2] < t[1] and 1973 <= tzdb.us_to_fields(t[0] * 10**6)[0] <= 2036]
+        if trans:
+            t, o0, o1 = r.choice(trans)
+            w = tzdb.us_to_fields((t + o1 + r.randrange(0, o0 - o1)) * 10**6)
+            f1 = w
+            f2 = tzdb.us_to_fields(tzdb.naive_us(w) + r.choice([2 * 3600, 5 * 3600, 20 * 3600, 3 * 86400, 40 * 86400]) * 10**6 + r.randrange(0, 3600) * 10**6)
+    fold_a = r.randrange(2)
+    a = {"$": "dt", "f": f1, "tz": z1, "fold": fold_a}
     b = {"$": "dt", "f": f2, "tz": z2}
     try:
         ia, ib = tzdb.wall_to_instants(z1, f1), tzdb.wall_to_instants(z2, f2)
-        ok = len(ia) == 1 and len(ib) == 1 and ia[0] <= ib[0]
+        ok = len(ia) >= 1 and len(ib) == 1
+        if ok:
+            inst_a = ia[-1] if (fold_a and len(ia) == 2) else ia[0]
+            ok = inst_a <= ib[0]
+            if len(ia) == 1:
+                a["fold"] = 1
         if ok and kind == "zone":
-            ok = tzdb.render(z1, ia[0])[1] == tzdb.render(z2, ib[0])[1]
+            ok = tzdb.render(z1, inst_a)[1] == tzdb.render(z2, ib[0])[1]
     except Exception:
         ok = False
     meta["eligible"] = bool(ok) and kind == "zone"
     meta["mixed"] = kind == "mixed" and bool(ok) and z1 != z2
     return a, b, meta
+
+
+def _other_zone_view(r, m):
+    """an Interval over the same two instants as pool interval m, expressed in another zone"""
+    try:
+        za, zb = m["a"]["tz"], m["b"]["tz"]
+        ia = tzdb.wall_to_instants(za, m["a"]["f"])
+        ib = tzdb.wall_to_instants(zb, m["b"]["f"])
+        if not ia or not ib:
+            return None
+        ta = ia[-1] if (m["a"].get("fold", 1) and len(ia) == 2) else ia[0]
+        tb = ib[-1]
+        z = r.choice(["UTC", "Asia/Tokyo", "America/New_York", 19800])
+        if z == za:
+            z = "UTC" if za != "UTC" else "Asia/Tokyo"
+        fa, fb = tzdb.render(z, ta), tzdb.render(z, tb)
+        return {"$": "iv", "a": {"$": "dt", "f": fa[0], "tz": z, "fold": fa[2]}, "b": {"$": "dt", "f": fb[0], "tz": z, "fold": fb[2]}, "abs": False}
+    except Exception:
+        return None
 
 
 def gen(rp, rw, tier):
@@ -149,6 +182,12 @@ def gen(rp, rw, tier):
                     ops.append(["obs", {"$": "r", "i": len(ops) - 1}])
             elif m.get("mixed"):
                 ops.append(["utc_pair", m["a"], m["b"]])
+            elif m["kind"] in ("utc", "fixed", "zone") and rp.random() < 0.6:
+                v = _other_zone_view(rp, m)
+                if v is not None:
+                    ops.append(["obs", v])
+                else:
+                    ops.append(["obs", T])
             else:
                 ops.append(["obs", T])
         actors.append({"name": "T%d" % (c + 1), "ops": ops})
